@@ -366,9 +366,9 @@ PROPS = {
         "level_note": "Trusted base: geometric adjacency, shared-stretch matching (vf_kit.c), canonical vertex indexes (validated by C11) for the Euler count. Failures caused by the known vertex-hash defect F2 are matched by exact key in the "
                       "exhaustive corpus and by a mechanism signature elsewhere.",
         "technique": "runtime monitoring: topological reference (components, Euler characteristic, outline size), orientation/area monitors and allocator ledger, under ASan/UBSan",
-        "evaluations": ["sets"],
+        "evaluations": ["sets", "memory_only.sets"],
         "rule": "a case is one set of distinct same-resolution cells. Non-trivial = more than one cell; distinct by hash of the sorted set.",
-        "require": {"sets": 20000, "corpus.origins": 6000, "sets.with_holes": 50, "sets.multi_component": 50, "cells_in": 200000},
+        "require": {"sets": 20000, "corpus.origins": 6000, "sets.with_holes": 50, "sets.multi_component": 50, "cells_in": 200000, "memory_only.error_returns": 100, "sets.globe_minus_patches": 100},
         "assumptions": ["three cells meet at every corner, so outline loops are simple and 2-(V-E+F) counts them"],
     },
     "C17": {
